@@ -8,6 +8,8 @@ the reference run (differential no-effect); at most one exclusive operation is e
 (nesting counter on the synchronized entry points, observation only); after A has ended in any
 of the three ways a probe exclusive request is accepted.
 """
+import os
+
 from tornado import gen
 
 from vlib import simhist
@@ -481,30 +483,31 @@ def long_gap(spec, res):
         yield w.settle(30)
         t0 = w.clock.now
         yield w.call(op, name='a', waiting=True)
-        yield w.settle(60)
         if op == 'stop':
             yield w.call('start', name='a', waiting=True)
-            yield w.settle(60)
+        # (no settle() here: it would run the clock on to whatever timer is pending)
         yield w.advance(max(0.0, gap - (w.clock.now - t0)))
         w.req(op, name='a')                      # the slow one: 8 s of grace for two stubborn workers
         accepted = []
         for i in range(24):
             yield w.advance(0.4)
+            # "in flight" is taken from the operation itself (its future has not completed), not from the slot
+            running = list(w.nest['open'])
             held = w.arb._exclusive_running_command
+            if not running:
+                break
             mid = w.req('incr', name='b', nb=1)
             rb = w.reply(mid)
             res.obs['requests_during_the_second_operation'] += 1
-            if held is None:
-                break
             if isinstance(rb, dict) and rb.get('status') == 'ok':
-                accepted.append((round(w.clock.now - t0, 2), held))
+                accepted.append((round(w.clock.now - t0, 2), running, held))
         yield w.settle(120)
         if w.stalled is not None:
             res.obs['stalled(C05 owns)'] += 1
             return
         if accepted:
             res.violation('C10/accepted-inside:incr[long-gap]', 'second %s of a, %.1f s after the first one: incr b was '
-                          'answered ok at %s (seconds since the first %s, slot holder)' % (op, gap, accepted[:3], op))
+                          'answered ok at %s (seconds since the first %s, operations in flight, slot holder)' % (op, gap, accepted[:3], op))
         if w.nest['overlaps']:
             res.violation('C10/two-exclusive-in-flight', 'exclusive entry %s entered while %s in flight (second %s, '
                           '%.1f s after the first)' % (w.nest['overlaps'][0] + (op, gap)))
